@@ -75,9 +75,39 @@ def valid(t, s, week53=False):
 def key(t, s):
     """Comparable value of a *valid* string."""
     if t in ('number', 'range'):
-        from fractions import Fraction
-        return Fraction(s if not s.startswith('.') and not s.startswith('-.') else s.replace('.', '0.', 1))
+        return DecimalKey(s)
     return tuple(int(x) for x in re.findall(r'[0-9]+', s))
+
+
+class DecimalKey:
+    """Exact order of decimal strings [-]digits[.digits] / [-].digits without converting them (no digit limit)."""
+
+    def __init__(self, s):
+        neg = s.startswith('-')
+        body = s[1:] if neg else s
+        ip, _, fp = body.partition('.')
+        ip = ip.lstrip('0')
+        fp = fp.rstrip('0')
+        self.zero = not ip and not fp
+        self.neg = neg and not self.zero
+        self.mag = (len(ip), ip, fp)
+
+    def _k(self):
+        return (0, ()) if self.zero else ((-1, self.mag) if self.neg else (1, self.mag))
+
+    def __eq__(self, o):
+        return self._k() == o._k()
+
+    def __lt__(self, o):
+        a, b = self._k(), o._k()
+        if a[0] != b[0]:
+            return a[0] < b[0]
+        if a[0] == 0:
+            return False
+        return a[1] < b[1] if a[0] > 0 else a[1] > b[1]
+
+    def __gt__(self, o):
+        return o.__lt__(self)
 
 
 def out_of_range(t, mn, mx, value, week53=False):
